@@ -46,7 +46,7 @@ var c05Subsets = [][]string{{"local"}, {"ntlm"}, {"kerberos"}, {"openid", "local
 
 var c05Auths = []string{"absent", "empty", "bare:NTLM", "bare:Negotiate", "bare:Basic", "short:NTL", "short:Basi", "short:Negotiat", "lower:ntlm", "lower:basic", "junk", "bearer",
 	"basic-right", "basic-right", "basic-wrong-pass", "basic-unknown-user", "basic-empty-pass", "basic-undecodable", "basic-nocolon", "basic-two-lines-junk-first", "basic-two-lines-right-first",
-	"ntlm-right", "ntlm-right", "ntlm-wrong-pass", "ntlm-unknown-user", "ntlm-type3-first", "ntlm-type3-other-conn", "ntlm-type1-only", "ntlm-garbage", "negotiate-ntlm-right", "negotiate-garbage", "xNTLM-prefix"}
+	"ntlm-right", "ntlm-right", "ntlm-wrong-pass", "ntlm-unknown-user", "ntlm-type3-first", "ntlm-type3-other-conn", "ntlm-type1-only", "ntlm-garbage", "negotiate-ntlm-right", "negotiate-garbage", "xNTLM-prefix", "krb-valid", "krb-valid", "krb-foreign-key"}
 
 func genC05(t *rapid.T) c05Case {
 	c := c05Case{Subset: rapid.SampledFrom(c05Subsets).Draw(t, "subset")}
@@ -255,6 +255,7 @@ func runC05(c c05Case) *Violation {
 		type1 := base64.StdEncoding.EncodeToString(ntlmx.Negotiate())
 		logBefore := svc.LogLen()
 		expectReach := false
+		krbValid := false // the request carries a service ticket the harness issued under the gateway's own keytab key
 		var heads []httpHead
 		var conn net.Conn
 		var br *bufio.Reader
@@ -351,6 +352,14 @@ func runC05(c c05Case) *Violation {
 			one("Negotiate " + base64.StdEncoding.EncodeToString([]byte("not a spnego token")))
 		case "xNTLM-prefix":
 			one("xNTLM " + type1)
+		case "krb-valid", "krb-foreign-key":
+			h, kerr := krbNegotiate(r.User, r.Auth == "krb-foreign-key")
+			if kerr != nil {
+				return viol("infra", "cannot build a Kerberos token: %v", kerr)
+			}
+			one(h)
+			expectReach = krb && r.Auth == "krb-valid"
+			krbValid = krb && r.Auth == "krb-valid"
 		}
 		if r.Method != "RDG_OUT_DATA" {
 			expectReach = false
@@ -381,6 +390,9 @@ func runC05(c c05Case) *Violation {
 				if e.OK && e.Kind == "ntlm" && ntl && e.Username == r.User {
 					confirmed = true
 				}
+			}
+			if krbValid && !(r.Method != "RDG_OUT_DATA") {
+				confirmed = true // Kerberos is validated against the keytab in the gateway itself: the harness-issued ticket is the confirmation
 			}
 			if !confirmed {
 				conn.Close()
